@@ -29,6 +29,14 @@ def main(argv=None):
     t0 = time.time()
     os.environ.pop("VF_SCRATCH", None)
     core.scratch_dir()
+    if getattr(mod, "EARLY_POOL_PATCH", False) and not a.replay:
+        # substitute the model pool BEFORE catii is imported, so that the cube modules pick it up however they reference the
+        # stdlib pool (attribute lookup at call time, `from multiprocessing.pool import ThreadPool`, a class attribute ...)
+        import multiprocessing.pool
+
+        from . import conformance, sched  # conformance captures the real pool first
+
+        multiprocessing.pool.ThreadPool = sched.ModelPool
     try:
         boot.load(getattr(mod, "VARIANT", "plain"))
     except build.BuildError as e:
